@@ -474,7 +474,16 @@ fn module_boundary(m: &Model, ctx: &mut Ctx) {
             impl model::DeepCb for Paths { fn expr(&mut self, e: &syn::Expr) { if let syn::Expr::Path(p) = e { if let Some(s) = p.path.segments.last() { self.out.push(s.ident.to_string()); } } } }
             let mut ps = Paths { out: vec![] };
             model::deep_walk_block(&f.block, &mut ps);
-            names.extend(ps.out);
+            // a local of that name (`if let Ok((rest, _)) = ..`) is not the parser
+            struct Bound { out: Vec<String> }
+            impl model::DeepCb for Bound {
+                fn pat(&mut self, p: &syn::Pat) { model::collect_idents(&quote::ToTokens::to_token_stream(p), &mut self.out); }
+                fn local(&mut self, l: &syn::Local) { model::collect_idents(&quote::ToTokens::to_token_stream(&l.pat), &mut self.out); }
+            }
+            let mut bound = Bound { out: Default::default() };
+            model::deep_walk_block(&f.block, &mut bound);
+            names.retain(|n| !bound.out.contains(n));
+            names.extend(ps.out.into_iter().filter(|n| !bound.out.contains(n)));
             for g in global(&names) {
                 ctx.oblige(rule, &format!("{}:{}", f.name, g), true);
                 let comment_rest = g == "rest" && f.name.contains("comment");
